@@ -111,7 +111,7 @@ class CanvasRunner:
             for l in open(os.path.join(bdir, "step.csv")).read().split("\n")[1:]:
                 if l:
                     f = l.split(",")
-                    res["rows"].append(dict(step=int(f[0]), name=f[1], exit=int(f[2]), duration=int(f[3]), log=f[5], skip=int(f[8])))
+                    res["rows"].append(dict(step=int(f[0]), name=f[1], exit=int(f[2]), duration=int(f[3]), delta=int(f[4]), log=f[5], skip=int(f[8])))
         res["report"] = open(os.path.join(bdir, "report")).read() if bdir and os.path.exists(os.path.join(bdir, "report")) else None
         res["logs"] = {}
         if bdir and os.path.isdir(bdir):
